@@ -128,7 +128,9 @@ def to_rdflib(t):
     if k == "bnode":
         return rdflib.BNode(t[1])
     if k == "lit":
-        return rdflib.Literal(t[1], lang=t[2], datatype=rdflib.URIRef(t[3]) if t[3] else None)
+        # normalize=False: the literal holds the lexical form it was given ("01"^^xsd:integer stays "01"), which is what
+        # must come back; what rdflib's own normalisation would do to it is not pyjelly's business
+        return rdflib.Literal(t[1], lang=t[2], datatype=rdflib.URIRef(t[3]) if t[3] else None, normalize=False)
     if k == "default":
         return DATASET_DEFAULT_GRAPH_ID
     raise ValueError(t)
